@@ -163,6 +163,10 @@ def run(tier):
     ck.model("CoverBest mutation (job registers itself; expected to violate NoUseAfterDestroy)", rm, {"violated": rm.invariant_violated})
     if rm.invariant_violated != "NoUseAfterDestroy":
         ck.warn("mutation config was not rejected")
+    rm2 = core.run_tlc("CoverBest", "CoverBest_mutDestroy.cfg", tag="c18-mut2", timeout=600)
+    ck.model("CoverBest mutation (error exit destroys without waiting; expected to violate NoUseAfterDestroy)", rm2, {"violated": rm2.invariant_violated})
+    if rm2.invariant_violated != "NoUseAfterDestroy":
+        ck.warn("mutation config CoverBest_mutDestroy was not rejected")
     exe = core.build_exe("traindrv", ["traindrv.c"], "san")
     for bi in range(2 if tier == "quick" else 12):
         pending = gen_script(ck.rng, tier)
